@@ -103,12 +103,49 @@ def pyAbs : LitVal → M LitVal
 
 def truncRatI (q : Rat) : Int := if 0 ≤ q then q.floor else q.ceil
 
+def isDigitC (c : Char) : Bool := '0' ≤ c && c ≤ '9'
+def isOddSpelling (cs : List Char) : Bool := cs.any (fun c => c == '_' || c == ' ' || c == '\t' || c == '\n' || c == 'e' || c == 'E')
+
+/-- `int(s)` on a string value: an optional sign and decimal digits (what `str()` of an int gives). A string literal of the
+    text keeps its quotes in `value`, so it is never numeric. Spellings Python also accepts (underscores, surrounding
+    whitespace) are not modelled. -/
+def pyIntOfStr (s : String) : M Int :=
+  let cs := s.toList
+  let (neg, ds) : Bool × List Char := match cs with | '-' :: r => (true, r) | '+' :: r => (false, r) | r => (false, r)
+  if !ds.isEmpty && ds.all isDigitC then
+    match (String.ofList ds).toNat? with
+    | some n => .ok (if neg then -(n : Int) else (n : Int))
+    | none => unmodelled
+  else if isOddSpelling cs then unmodelled
+  else .error .value
+
+/-- `float(s)` on a string value: `inf` / `-inf` / `nan`, or sign digits [. digits] (what `str()` of a number gives) -/
+def pyFloatOfStr (s : String) : M LitVal :=
+  if s == "inf" || s == "+inf" then .ok .inf
+  else if s == "-inf" then .ok .ninf
+  else if s == "nan" then .ok .nan
+  else
+    let cs := s.toList
+    let (neg, body) : Bool × List Char := match cs with | '-' :: r => (true, r) | '+' :: r => (false, r) | r => (false, r)
+    let (ip, fp) : List Char × List Char := match body.span (· != '.') with
+      | (i, _ :: f) => (i, f)
+      | (i, []) => (i, [])
+    let digits := ip ++ fp
+    if !digits.isEmpty && digits.all isDigitC then
+      match (String.ofList digits).toNat? with
+      | some m =>
+          let q : Rat := (m : Rat) / ((10 ^ fp.length : Nat) : Rat)
+          .ok (.flt (if neg then -q else q))
+      | none => unmodelled
+    else if isOddSpelling cs then unmodelled
+    else .error .value
+
 /-- `int(value)` -/
 def pyInt : LitVal → M Int
   | .int n => .ok n
   | .flt q => .ok (truncRatI q)
   | .bool b => .ok (if b then 1 else 0)
-  | .str _ => .error .value
+  | .str s => pyIntOfStr s
   | .nan => .error .value
   | .inf | .ninf => unmodelled       -- OverflowError
 
